@@ -130,6 +130,16 @@ def scenarios(P):
             'defaults': [], 'conf': {},
             'probes': [('zz', ['mem']), ('zz', ['adm'])],
         },
+        's11-no-overwrite-dir-edit': {
+            # Enforcer(overwrite=False): files are merged into the store in
+            # place.  The directory file overrides a main-file rule; only an
+            # unrelated rule of the directory file is edited
+            'old': {'policy.yaml': {'a': 'role:adm'},
+                    'd1/o.yaml': {'a': 'role:op', 'u': 'role:u1'}},
+            'new': {'d1/o.yaml': {'a': 'role:op', 'u': 'role:u2'}},
+            'defaults': [], 'conf': {}, 'enforcer_kw': {'overwrite': False},
+            'probes': [('a', ['op']), ('a', ['adm'])],
+        },
         's5-alias-halves-swap': {
             'old': {'policy.yaml': {'a': 'rule:h1 and rule:h2',
                                     'h1': 'role:p', 'h2': 'role:q'}},
@@ -149,7 +159,8 @@ TIERS = {
                         's7-untouched-rule-of-edited-file',
                         's8-override-of-default-removed',
                         's9-dir-rule-beside-missing-default',
-                        's10-dir-overrides-default-rule'],
+                        's10-dir-overrides-default-rule',
+                        's11-no-overwrite-dir-edit'],
                   bound=2, reduced=True, opcode=False,
                   probes={'s1-main-edit-dir-override': [2, 1],
                           's1b-main-edit-dir-touched': [1],
@@ -160,7 +171,8 @@ TIERS = {
                           's7-untouched-rule-of-edited-file': [2],
                           's8-override-of-default-removed': [1],
                           's9-dir-rule-beside-missing-default': [2],
-                          's10-dir-overrides-default-rule': [1, 1]}),
+                          's10-dir-overrides-default-rule': [1, 1],
+                          's11-no-overwrite-dir-edit': [1, 1]}),
     'thorough': dict(scen=None, bound=2, reduced=False, opcode=True,
                      probes=None),
 }
@@ -199,7 +211,7 @@ class Harness:
         conf = world.new_conf(w.root,
                               policy_dirs=self.sc.get('dirs', ['d1']),
                               **self.sc['conf'])
-        enf = P.Enforcer(conf)
+        enf = P.Enforcer(conf, **self.sc.get('enforcer_kw', {}))
         enf.suppress_deprecation_warnings = True
         d = self.sc['defaults']
         enf.register_defaults(d() if callable(d) else d)
@@ -222,7 +234,7 @@ class Harness:
             conf = world.new_conf(w.root,
                                   policy_dirs=self.sc.get('dirs', ['d1']),
                                   **self.sc['conf'])
-            e2 = self.P.Enforcer(conf)
+            e2 = self.P.Enforcer(conf, **self.sc.get('enforcer_kw', {}))
             e2.suppress_deprecation_warnings = True
             d = self.sc['defaults']
             e2.register_defaults(d() if callable(d) else d)
